@@ -8,7 +8,13 @@ E2 bounded enumeration on the real Material / Substance classes.
              so every scaled case checks the scaling invariance.
   duality    for every unscaled number-fraction material: rebuild it from the mass fractions X it reports
              (Norm.MASS_FRACTION) and compare x and X.
-  substance  x and X over the atoms of 8 formulas (Norm.NUMBER), also after multiplying the substance by {2, 3, 0.5}.
+  particle   the KIND of constituent a substance starts with / contains: every ordered tuple of 1..3 distinct
+             substances from {[p], [n], [e], [e]He{4-2}, [p]3[n]2[e], H[e]} (free nucleons, nucleon first, nucleon
+             not first) + partners {H, H2O} x proportions {1, 78.084}^k x common scaling {1, 0.01} x both
+             normalisation modes x both isotope modes x input form {dictionary, expression string}; same oracle,
+             duality for every unscaled number-fraction dictionary case.
+  substance  x and X over the atoms of 11 formulas (Norm.NUMBER; three of them with nucleons as constituents), also
+             after multiplying the substance by {2, 3, 0.5}.
   trace      a tiny positive proportion {8.7e-8, 1e-9, 1e-12} at every position next to proportions {1, 78.084}, all 20
              ordered pairs and the 6 orders of one triple, common scale {1, 1e-3}, both normalisation modes (dict form).
   explicit   material components written in the explicit formula notation ('Na{23} + Cl', 'O{17} * 3', 'H * 2 + O',
@@ -46,7 +52,8 @@ PROPERTY = "C11"
 LEVEL = "exploration"
 RULE = ("a case is one (ordered substance tuple, proportion tuple, scaling, normalisation mode, isotope mode); all "
         "cases are distinct by construction; non-trivial = at least two components (fractions are not all 100), "
-        "duality cases and substance cases count once each; string: every (spelling tuple, mode, isotope mode); "
+        "duality cases and substance cases count once each; particle: every (ordered tuple of nucleon-bearing / "
+        "ordinary substances, proportion tuple, scaling, mode, isotope mode, input form); string: every (spelling tuple, mode, isotope mode); "
         "history: every (start object, isotope mode, operation sequence), all distinct, none pruned")
 ASSUMPTIONS = [
     "the component mass m_i is the one the object reports in data_components() (its correctness is property C10)",
@@ -58,13 +65,24 @@ PROPS = [1, 2, 0.5, 78.084]
 SCALES = [1, 2, 0.1, 100, 1e-6, 1e-9, 1e-12]
 NWIN = 24                        # quick: k <= 2 complete, k = 3 one window of NWIN; thorough: everything
 
-SUB_FORMULAS = ["H2O", "NaCl", "O2", "Ar", "CO2", "Ca(OH)2", "C2H5OH", "Fe{56+3}2O{-2}3"]
+SUB_FORMULAS = ["H2O", "NaCl", "O2", "Ar", "CO2", "Ca(OH)2", "C2H5OH", "Fe{56+3}2O{-2}3",
+                "[p]3[n]2[e]", "[e]He{4-2}", "H[e]"]
 SUB_ATOMS = {           # written by hand: species -> count (the oracle never parses)
     "H2O": {"H": 2, "O": 1}, "NaCl": {"Na": 1, "Cl": 1}, "O2": {"O": 2}, "Ar": {"Ar": 1}, "CO2": {"C": 1, "O": 2},
     "Ca(OH)2": {"Ca": 1, "O": 2, "H": 2}, "C2H5OH": {"C": 2, "H": 6, "O": 1},
     "Fe{56+3}2O{-2}3": {"Fe{56+3}": 2, "O{-2}": 3},
+    "[p]3[n]2[e]": {"[p]": 3, "[n]": 2, "[e]": 1}, "[e]He{4-2}": {"[e]": 1, "He{4-2}": 1}, "H[e]": {"H": 1, "[e]": 1},
 }
 SUB_MULT = [None, 2, 3, 0.5]
+
+# substances by the KIND of their constituents (docs/source/materials/elements.rst: "individual nucleons can be used
+# in formulas in the same way as elements"): free nucleons, a nucleon in first position, a nucleon in a later position,
+# next to ordinary partners.  Component masses range over four orders of magnitude (5.5e-4 .. 18 Da).
+PART_SUBSTANCES = ["[p]", "[n]", "[e]", "[e]He{4-2}", "[p]3[n]2[e]", "H[e]", "H", "H2O"]
+PART_PROPS = [1, 78.084]
+PART_SCALES = [1, 0.01]
+PART_FORMS = ["dict", "str"]     # str: "p <A> p <B> ..." with p spelled repr(proportion * scale)
+NWIN_PART = 48                   # quick: k <= 2 complete, k = 3 one window of NWIN_PART; thorough: everything
 
 # materials given as expression STRINGS "p <substance> p <substance> ...": every tuple of proportion spellings
 # (plain decimals, integers, unsigned / signed / upper-case exponents of unequal size), compared with the closed
@@ -182,13 +200,21 @@ def _compare(sub, case, tags, keys, amounts_props, norm, got):
     return None
 
 
-def check_material(subs, props, scale, norm, natural, duality=False):
+def check_material(subs, props, scale, norm, natural, duality=False, form="dict"):
     from scinumtools.materials import Material
     case = dict(kind="duality" if duality else "material", subs=list(subs), props=list(props), scale=scale,
                 norm=norm, natural=natural)
     tags = ["norm:" + norm, "k=%d" % len(subs), "scale=%s" % scale, "natural" if natural else "abundant"]
+    if any("[" in s for s in subs):              # features of the input: kind of constituents
+        tags.append("nucleon-first" if any(s.startswith("[") for s in subs) else "nucleon-inside")
     given = {s: p * scale for s, p in zip(subs, props)}
-    o = outcome(Material, dict(given), natural=natural, norm_type=_norm(norm))
+    arg = dict(given)
+    if form == "str":
+        case["form"] = form
+        tags.append("input:str")
+        arg = " ".join("%r <%s>" % (p, s) for s, p in given.items())
+        case["expr"] = arg
+    o = outcome(Material, arg, natural=natural, norm_type=_norm(norm))
     if o[0] == "err":
         return failure("fractions", case, "Material constructed", list(o), tags, "raises:" + o[1])
     got = _read(o[1], subs)
@@ -460,6 +486,11 @@ def plan(tier, seed):
     for t in list(itertools.permutations(SUBSTANCES, 2)) + list(itertools.permutations(TRACE_TRIPLE, 3)):
         shards.append(("trace", t))
     shards.append(("explicit",))
+    winp = None if tier == "thorough" else seed % NWIN_PART
+    shards.append(("particle", 1, None, winp))
+    for t in itertools.permutations(PART_SUBSTANCES, 2):
+        shards.append(("particle", 2, t, winp))       # k = 2: this pair
+        shards.append(("particle", 3, t, winp))       # k = 3: this pair followed by every third substance
     wins = None if tier == "thorough" else seed % NWIN_STR
     for k in (2, 3):
         for first in SPELLINGS:
@@ -518,6 +549,42 @@ def _run_shard(desc):
                                 sh.fail(bad)
                             _restore()
         sh.sample(dict(kind="explicit", key="H * 2 + O", pos=1, norm="mass", via="add"))
+        return sh
+    if desc[0] == "particle":
+        _, k, head, win = desc
+        if k == 1:
+            tuples = [(a,) for a in PART_SUBSTANCES]
+        elif k == 2:
+            tuples = [tuple(head)]
+        else:
+            tuples = [tuple(head) + (c,) for c in PART_SUBSTANCES if c not in head]
+        for subs in tuples:
+            for props in itertools.product(PART_PROPS, repeat=k):
+                for scale in PART_SCALES:
+                    for norm in ("number", "mass"):
+                        for nat in (False, True):
+                            for form in PART_FORMS:
+                                if k == 3 and win is not None and \
+                                        hash((subs, props, scale, norm, nat, form)) % NWIN_PART != win:
+                                    sh.count("particle:outside-window")
+                                    continue
+                                dual = (scale == 1 and norm == "number" and form == "dict")
+                                bad = check_material(subs, props, scale, norm, nat, duality=dual, form=form)
+                                sh.evaluations += 1
+                                sh.count("particle:k=%d:%s" % (k, norm))
+                                sh.count("particle:" + form)
+                                if any(s_.startswith("[") for s_ in subs):
+                                    sh.count("particle:nucleon-first:" + norm)
+                                if dual:
+                                    sh.count("particle:duality")
+                                if k >= 2:
+                                    sh.nontrivial += 1
+                                if bad:
+                                    sh.fail(bad)
+                                _restore()
+        if k >= 2:
+            sh.sample(dict(kind="material", subs=list(tuples[0]), props=[1, 78.084, 1][:k], scale=0.01, norm="mass",
+                           form="str"))
         return sh
     if desc[0] == "trace":
         subs = desc[1]
@@ -610,8 +677,10 @@ def replay(rec):
             return check_string(c["subs"], c["spellings"], c["norm"], c["natural"])
         if c["kind"] == "history":
             return check_history(c["start"], c["natural"], c["history"])[0]
+        form = c.get("form", "dict")
         return check_material(tuple(c["subs"]), tuple(c["props"]), c["scale"], c["norm"], c["natural"],
-                              duality=(c["kind"] == "duality" or (c["scale"] == 1 and c["norm"] == "number")))
+                              duality=(form == "dict" and (c["kind"] == "duality" or
+                                                           (c["scale"] == 1 and c["norm"] == "number"))), form=form)
     finally:
         _restore()
 
@@ -622,7 +691,10 @@ def finish(total, tier, seed):
                 "substance"):
         if not h.get(key):
             raise HarnessError("vacuous run: no case under " + key)
-    for key in ("string:k=2", "string:k=3", "string:signed-exponent", "trace:k=2", "trace:k=3", "explicit"):
+    for key in ("string:k=2", "string:k=3", "string:signed-exponent", "trace:k=2", "trace:k=3", "explicit",
+                "particle:k=1:mass", "particle:k=2:number", "particle:k=2:mass", "particle:k=3:number",
+                "particle:k=3:mass", "particle:nucleon-first:number", "particle:nucleon-first:mass",
+                "particle:dict", "particle:str", "particle:duality"):
         if not h.get(key):
             raise HarnessError("vacuous run: no case under " + key)
     for key in ("add-existing", "add-new", "plus-shared", "plus-shared-last", "plus-disjoint", "mul",
@@ -641,6 +713,13 @@ def finish(total, tier, seed):
         full_space=full, duality_cases=h.get("duality", 0),
         states=len(hstates), transitions=total.transitions, traces_validated_against_impl=total.traces,
         max_depth=total.max_depth,
+        particle_bounds=dict(substances=PART_SUBSTANCES, k="1..3 ordered, distinct", proportions=PART_PROPS,
+                             scalings=PART_SCALES, modes=["number", "mass"], isotope_modes=["natural", "abundant"],
+                             forms=PART_FORMS, cases=sum(h.get("particle:" + f, 0) for f in PART_FORMS),
+                             nucleon_first_mass_mode=h.get("particle:nucleon-first:mass", 0),
+                             duality_cases=h.get("particle:duality", 0),
+                             window="all" if tier == "thorough" else
+                             "k<=2 complete + window %d of %d of k=3" % (seed % NWIN_PART, NWIN_PART)),
         explicit_bounds=dict(keys=EXPLICIT_KEYS, position=[0, 1, 2], via=["dict", "add"], modes=["number", "mass"],
                              isotope_modes=["natural", "abundant"]),
         trace_bounds=dict(values=TRACE_VALUES, others=TRACE_OTHERS, scales=TRACE_SCALES, position="every",
@@ -656,8 +735,10 @@ def finish(total, tier, seed):
                             pruning="none (every history executed)"),
         window="all" if tier == "thorough" else "k<=2 complete + window %d of %d of k=3" % (seed % NWIN, NWIN),
         exhaustive=(tier == "thorough"),
-        caps_hit=[] if tier == "thorough" else ["quick executes 1 of %d windows of the k=3 mixtures" % NWIN],
-        skipped_outside_window=h.get("outside-window", 0),
+        caps_hit=[] if tier == "thorough" else ["quick executes 1 of %d windows of the k=3 mixtures" % NWIN,
+                                                 "quick executes 1 of %d windows of the k=3 particle mixtures"
+                                                 % NWIN_PART],
+        skipped_outside_window=h.get("outside-window", 0) + h.get("particle:outside-window", 0),
     )
 
 
@@ -669,7 +750,11 @@ MANIFEST = dict(
          "{1, 78.084} at scales {1, 1e-3}. x and X are compared with the closed formulas computed from the UNscaled proportions "
          "(rel 1e-10), sums with 100 (abs 1e-9); every unscaled number-fraction material is rebuilt from its reported "
          "mass fractions and must report the same x and X (rel 1e-9); the same formulas are checked over the atoms of "
-         "8 substances and their multiples. Components written in the explicit formula notation ('H * 2 + O', ...) "
+         "11 substances (3 with nucleons as constituents) and their multiples. Kind of constituents: every ordered "
+         "tuple of 1-3 substances from {[p], [n], [e], [e]He{4-2}, [p]3[n]2[e], H[e], H, H2O} (free nucleons, nucleon "
+         "first / not first, ordinary partners) x proportions {1, 78.084}^k x scaling {1, 0.01} x both modes x both "
+         "isotope modes x input form {dict, expression string} (46 848 materials; quick: k<=2 complete plus one "
+         "window of 48 for k=3), same closed formulas and duality. Components written in the explicit formula notation ('H * 2 + O', ...) "
          "as dict keys and through add() must have the mass of the stand-alone substance. Materials written as "
          "expression strings: all 17^2 (quick: + one window of "
          "20 of the 17^3) tuples of proportion spellings incl. signed, unsigned and upper-case exponents and trace "
